@@ -35,6 +35,7 @@ const (
 	sepMaximal
 	sepComments
 	sepRandom
+	sepLines // every separation is a line break followed by 0-3 bytes of indentation (boundary.go only)
 )
 
 const (
@@ -93,6 +94,55 @@ type writer struct {
 	buf         bytes.Buffer
 	lastRegular bool
 	tokens      int
+	// spans records where every token, separator and "n g R" group lies in the
+	// output, so that the buffer-boundary stage can tell which kind of lexical
+	// element a given offset falls into (distribution evidence only).
+	spans        []span
+	lastTokStart int
+}
+
+// span is one lexical element of the printed bytes: buf[start:end].
+type span struct {
+	start, end int
+	what       string
+}
+
+// tokenClass names the class of a printed token from its spelling.
+func tokenClass(b []byte) string {
+	switch {
+	case len(b) == 0:
+		return "empty"
+	case b[0] == '(':
+		return "string-literal"
+	case string(b) == "<<" || string(b) == ">>" || string(b) == "[" || string(b) == "]":
+		return "delimiter"
+	case b[0] == '<':
+		return "string-hex"
+	case b[0] == '/':
+		return "name"
+	case (b[0] >= '0' && b[0] <= '9') || b[0] == '+' || b[0] == '-' || b[0] == '.':
+		if bytes.IndexByte(b, '.') >= 0 {
+			return "real"
+		}
+		return "int"
+	}
+	return "keyword"
+}
+
+// sepClass names the class of a printed separator.
+func sepClass(b []byte) string {
+	switch {
+	case bytes.IndexByte(b, '%') >= 0:
+		if bytes.Contains(b, []byte("\r\n")) {
+			return "sep-comment-crlf"
+		}
+		return "sep-comment"
+	case len(b) == 1:
+		return "sep-ws1"
+	case bytes.Contains(b, []byte("\r\n")):
+		return "sep-wsrun-crlf"
+	}
+	return "sep-wsrun"
 }
 
 func (w *writer) comment() {
@@ -121,6 +171,12 @@ func (w *writer) ws(n int) {
 // grammar needs one here.
 func (w *writer) sep(required bool) {
 	r := w.p.r
+	start := w.buf.Len()
+	defer func() {
+		if end := w.buf.Len(); end > start {
+			w.spans = append(w.spans, span{start, end, sepClass(w.buf.Bytes()[start:end])})
+		}
+	}()
 	mode := w.p.sep
 	if mode == sepRandom {
 		mode = r.Intn(4)
@@ -138,6 +194,11 @@ func (w *writer) sep(required bool) {
 		}
 	case sepMaximal:
 		w.ws(r.Range(1, 4))
+	case sepLines:
+		w.buf.WriteString(w.p.eol)
+		for i := r.Intn(4); i > 0; i-- {
+			w.buf.WriteByte(hx.Pick(r, []byte("  \t")))
+		}
 	case sepComments:
 		w.ws(r.Intn(2))
 		w.comment()
@@ -154,7 +215,9 @@ func (w *writer) tok(b []byte, startsRegular, endsRegular bool) {
 		w.sep(w.lastRegular && startsRegular)
 	}
 	w.tokens++
+	w.lastTokStart = w.buf.Len()
 	w.buf.Write(b)
+	w.spans = append(w.spans, span{w.lastTokStart, w.buf.Len(), tokenClass(b)})
 	w.lastRegular = endsRegular
 }
 
@@ -412,8 +475,10 @@ func (w *writer) obj(n *node) {
 		w.tok([]byte(">>"), false, false)
 	case kRef:
 		w.tok([]byte(strconv.FormatInt(n.num, 10)), true, true)
+		refStart := w.lastTokStart
 		w.tok([]byte(strconv.FormatInt(n.gen, 10)), true, true)
 		w.tok([]byte("R"), true, true)
+		w.spans = append(w.spans, span{refStart, w.buf.Len(), "ref-group"})
 	default:
 		panic(fmt.Sprint("printer: kind ", n.k))
 	}
@@ -421,11 +486,18 @@ func (w *writer) obj(n *node) {
 
 // printObjects writes a sequence of objects (top level of a document-level parse).
 func printObjects(p policy, ns []*node) []byte {
+	b, _ := printObjectsSpans(p, ns)
+	return b
+}
+
+// printObjectsSpans is printObjects that also says where each lexical element lies.
+func printObjectsSpans(p policy, ns []*node) ([]byte, []span) {
 	w := &writer{p: p}
 	for _, n := range ns {
 		w.obj(n)
 	}
-	return w.finish()
+	b := w.finish()
+	return b, w.spans
 }
 
 type operation struct {
@@ -435,6 +507,12 @@ type operation struct {
 
 // printOps writes a content stream: operands then operator, repeatedly.
 func printOps(p policy, ops []operation) []byte {
+	b, _ := printOpsSpans(p, ops)
+	return b
+}
+
+// printOpsSpans is printOps that also says where each lexical element lies.
+func printOpsSpans(p policy, ops []operation) ([]byte, []span) {
 	w := &writer{p: p}
 	for _, o := range ops {
 		for _, n := range o.operands {
@@ -442,5 +520,6 @@ func printOps(p policy, ops []operation) []byte {
 		}
 		w.tok([]byte(o.op), true, true)
 	}
-	return w.finish()
+	b := w.finish()
+	return b, w.spans
 }
